@@ -96,8 +96,10 @@ func lookaheadSites(info *types.Info, fd *ast.FuncDecl) []laSite {
 }
 
 // lengthBound matches a comparison that bounds base+j by a length:
-//   base+j >= L  (exit form: when true the function leaves)   -> returns j, "exit"
-//   base+j <  L  (guard form: access inside the true branch)  -> returns j, "guard"
+//
+//	base+j >= L  (exit form: when true the function leaves)   -> returns j, "exit"
+//	base+j <  L  (guard form: access inside the true branch)  -> returns j, "guard"
+//
 // L is len(x), int64(len(x)), a variable defined from such, or the field Stream.length.
 func lengthBound(info *types.Info, fd *ast.FuncDecl, e ast.Expr) (base string, j int64, form string, ok bool) {
 	be, isB := core.Unparen(e).(*ast.BinaryExpr)
